@@ -336,6 +336,61 @@ async fn wire_case(h2: bool, with_tunnel: bool) -> Result<&'static str, Violatio
     Ok("wound-down")
 }
 
+/// Every channel's session registers a completion guard; `completion()` may return only after the
+/// session's graceful close is over. The transport's shutdown is held back to make the close slow.
+async fn slow_close_case(channel: &str) -> Result<&'static str, Violation> {
+    use crate::engine::sstream;
+    let case = json!({"kind":"slow-close","channel":channel});
+    let mk = |sig: String, what: String| Violation::new(sig, what, case.clone());
+    let world = make_world(&Cfg { reverse_proxy: Some(("127.0.0.1:9".parse().unwrap(), "/app".into())), reverse_proxy_hosts: vec!["r.t".into()], ping_hosts: vec!["p.t".into()], speedtest_hosts: vec!["s.t".into()], ..Cfg::default() }).map_err(|e| Violation::new("C19:machinery", e, json!({})))?;
+    let (server, h) = sstream::pair();
+    h.hold_shutdown(true);
+    let peer: std::net::SocketAddr = "198.51.100.7:40000".parse().unwrap();
+    let ctx = world.ctx.clone();
+    let ch = channel.to_string();
+    let task = tokio::spawn(async move {
+        let io = vh::wrap_io(server, peer);
+        match ch.as_str() {
+            "tunnel" => vh::on_tunnel_request(&ctx, VProtocol::Http1, io, "m.t".into(), None).await,
+            "ping" => vh::ping_listen(&ctx, VProtocol::Http1, io).await,
+            "speedtest" => vh::speedtest_listen(&ctx, VProtocol::Http1, io).await,
+            _ => vh::reverse_proxy_listen(&ctx, VProtocol::Http1, io, "r.t".into()).await,
+        }
+    });
+    door::spin(100).await;
+    world.shutdown.lock().unwrap().submit();
+    door::spin(300).await;
+    if !h.shutdown_requested() {
+        return Err(mk(format!("C19:channel-ignores-shutdown:{channel}"), format!("the {channel} session did not start closing its transport after the shutdown was submitted")));
+    }
+    // the session is still closing: completion must not return yet
+    let sd = world.shutdown.clone();
+    let mut comp = Box::pin(async move {
+        #[allow(clippy::await_holding_lock)]
+        let mut g = sd.lock().unwrap();
+        g.completion().await
+    });
+    let mut early = false;
+    for _ in 0..300 {
+        if door::poll_once(&mut comp).await.is_some() {
+            early = true;
+            break;
+        }
+        tokio::task::yield_now().await;
+    }
+    if early {
+        return Err(mk(format!("C19:completion-before-session-closed:{channel}"), format!("completion() returned while the {channel} session was still closing its connection")));
+    }
+    h.hold_shutdown(false);
+    if door::until(&mut comp, Duration::from_secs(3)).await.is_none() {
+        return Err(mk(format!("C19:completion-hangs-after-session-end:{channel}"), format!("completion() did not return after the {channel} session finished closing")));
+    }
+    let mut task = task;
+    let mut f = Box::pin(&mut task);
+    let _ = door::until(&mut f, Duration::from_secs(1)).await;
+    Ok("completion-after-close")
+}
+
 pub fn run(tier: Tier) -> i32 {
     crate::engine::watch::start("C19", tier.name(), Duration::from_secs(120), crate::engine::watch::OnExpiry::Machinery);
     let mut rep = Report::new("C19", tier, "model_checking");
@@ -374,7 +429,13 @@ pub fn run(tier: Tier) -> i32 {
             }
         }
     }
-    rep.sub.push(json!({"sub":"wind-down-on-the-wire","scenarios":wire}));
+    for channel in ["tunnel", "ping", "speedtest", "reverse-proxy"] {
+        wire += 1;
+        if let Err(v) = rt::run_paused(slow_close_case(channel)) {
+            rep.violation(v);
+        }
+    }
+    rep.sub.push(json!({"sub":"wind-down-on-the-wire","scenarios":wire,"what":"h1/h2 x with/without an open tunnel: session closes after submit and completion() returns; 4 channels with a held-back transport shutdown: completion() not before the session's close is over, and right after it"}));
     rep.cov("states", cps);
     rep.cov("transitions", cps);
     rep.cov("traces_validated_against_impl", total);
@@ -392,6 +453,9 @@ pub fn run(tier: Tier) -> i32 {
 }
 
 pub fn replay(case: &serde_json::Value) -> Result<(), Violation> {
+    if case.get("kind").and_then(|k| k.as_str()) == Some("slow-close") {
+        return rt::run_paused(slow_close_case(case["channel"].as_str().unwrap_or("tunnel"))).map(|_| ());
+    }
     if case.get("kind").and_then(|k| k.as_str()) == Some("wire") {
         return rt::run_paused(wire_case(case["h2"].as_bool().unwrap_or(false), case["with_tunnel"].as_bool().unwrap_or(false))).map(|_| ());
     }
